@@ -174,7 +174,7 @@ pub fn gated_case(p: &Profile) -> BoxedStrategy<Case> {
             }
             callers.extend(free_callers);
             let must: Vec<u8> = (k as u8..objects).collect();
-            let cfg = Cfg { pool: p0, objects, gates: k as u8, streams: 0, level: Level::Desync, unlock_points, spurious: vec![], pre_open: vec![], root_holds: true, double_wake: false, gate_keep_all: false, stream_always_register: false, keep_going_after_early_destroy: false, despawn_without_quiescence: false, unwinding_drops: false, consumer_probe_polls: false, chained_streams: false, stream_self_wakes: 0 };
+            let cfg = Cfg { pool: p0, objects, gates: k as u8, streams: 0, level: Level::Desync, unlock_points, spurious: vec![], pre_open: vec![], root_holds: true, double_wake: false, gate_keep_all: false, stream_always_register: false, keep_going_after_early_destroy: false, despawn_without_quiescence: false, unwinding_drops: false, consumer_probe_polls: false, chained_streams: false, stream_self_wakes: 0, guard_syncs: false };
             let phase0 = Phase { callers, ..Default::default() };
             let phase1 = Phase { root: vec![RootAct::SetPoolPublic { n, atomic: nraw % 4 != 0 }], must_finish_objs: must, ..Default::default() };
             return Case { cfg, phases: vec![phase0, phase1], sched };
@@ -211,7 +211,7 @@ pub fn gated_case(p: &Profile) -> BoxedStrategy<Case> {
         let _ = first_free;
         callers.extend(free_callers);
         let must: Vec<u8> = (k as u8..objects).collect();
-        let cfg = Cfg { pool, objects, gates, streams: 0, level: Level::Desync, unlock_points, spurious: vec![], pre_open: vec![], root_holds: true, double_wake: false, gate_keep_all: false, stream_always_register: false, keep_going_after_early_destroy: false, despawn_without_quiescence: false, unwinding_drops: false, consumer_probe_polls: false, chained_streams: false, stream_self_wakes: 0 };
+        let cfg = Cfg { pool, objects, gates, streams: 0, level: Level::Desync, unlock_points, spurious: vec![], pre_open: vec![], root_holds: true, double_wake: false, gate_keep_all: false, stream_always_register: false, keep_going_after_early_destroy: false, despawn_without_quiescence: false, unwinding_drops: false, consumer_probe_polls: false, chained_streams: false, stream_self_wakes: 0, guard_syncs: false };
         let phase0 = Phase { callers, must_finish_objs: if k > 0 { must } else { vec![] }, ..Default::default() };
         Case { cfg, phases: vec![phase0], sched }
     })
@@ -241,11 +241,12 @@ pub fn panic_case(p: &Profile) -> BoxedStrategy<Case> {
     healthy.stepw = StepW { awaitgate: 0, opengate: 0, blockongate: 0, nested_sync: 0, nested_desync: 1, nested_futdesync: 0, awaitfutsync: 0, awaitfutdesync: 0, ..StepW::default() };
     let bystanders = vec(vec(op_strategy(&healthy), 0..=3), 0..=2);
     let phase2 = vec(vec(op_strategy(&healthy), 1..=4), 1..=3);
-    (1u8..=3, 2u8..=4, 0u8..12, bystanders, phase2, sched_strategy(p.sched_bytes), prop::bool::weighted(0.3), vec(0u8..5, 1..=3), (prop::bool::weighted(0.3), vec((any::<u8>(), 0u8..4), 0..=2), prop::bool::weighted(0.2))).prop_map(|(pool, objects, ctx, mut by, mut ph2, sched, unlock_points, attempts, (quiet, parked, second))| {
+    (1u8..=3, 2u8..=4, 0u8..13, bystanders, phase2, sched_strategy(p.sched_bytes), prop::bool::weighted(0.3), vec(0u8..5, 1..=3), (prop::bool::weighted(0.3), vec((any::<u8>(), 0u8..4), 0..=2), prop::bool::weighted(0.2))).prop_map(|(pool, objects, ctx, mut by, mut ph2, sched, unlock_points, attempts, (quiet, parked, second))| {
         // the panicking op and its runner context
         let mut callers: Vec<Vec<Op>> = vec![];
         let panic_body = vec![Step::Touch, Step::Yield, Step::Panic];
         let mut stale_rewake = false;
+        let mut guard_syncs = false;
         match ctx {
             // pool thread runs a plain job
             0 => callers.push(vec![Op::Desync { o: 0, body: panic_body, id: 0 }]),
@@ -290,6 +291,11 @@ pub fn panic_case(p: &Profile) -> BoxedStrategy<Case> {
                 callers.push(vec![Op::Yield, Op::Yield, Op::OpenGate { g: 0 }]);
                 stale_rewake = true;
             }
+            // a plain job that owns a scope guard which synchronises with a healthy object: the guard runs while the job unwinds
+            12 => {
+                callers.push(vec![Op::Desync { o: 0, body: vec![Step::NestedSync { o: 254, body: vec![Step::Touch], id: 0 }, Step::Yield, Step::Panic], id: 0 }]);
+                guard_syncs = true;
+            }
             // a plain job that holds a handle on a healthy object panics: the handle is released while unwinding
             _ => callers.push(vec![Op::Desync { o: 0, body: vec![Step::NestedDesync { o: 255, body: vec![Step::Touch], id: 0 }, Step::Yield, Step::Panic], id: 0 }]),
         }
@@ -305,6 +311,22 @@ pub fn panic_case(p: &Profile) -> BoxedStrategy<Case> {
             callers.push(vec![Op::Desync { o: o1, body: vec![Step::Touch, Step::Panic], id: 0 }]);
         }
         let nhealthy = objects as usize - first_healthy - if parked.is_empty() { 0 } else { 1 };
+        if guard_syncs {
+            // the guard synchronises with the first healthy object that is not reserved for parked operations (if there is one)
+            if let Some(Op::Desync { body, .. }) = callers[0].get_mut(0) {
+                for st in body.iter_mut() {
+                    if let Step::NestedSync { o, .. } = st {
+                        if *o == 254 {
+                            if nhealthy >= 1 {
+                                *o = (((first_healthy * 256) + objects as usize - 1) / objects as usize).min(255) as u8;
+                            } else {
+                                *st = Step::Touch;
+                            }
+                        }
+                    }
+                }
+            }
+        }
         for c in by.iter_mut() {
             for op in c.iter_mut() {
                 remap_obj(op, first_healthy, nhealthy, objects as usize);
@@ -348,7 +370,7 @@ pub fn panic_case(p: &Profile) -> BoxedStrategy<Case> {
             };
             ph2.push(vec![Op::Attempt { o: 0, kind, id: 0 }]);
         }
-        let cfg = Cfg { pool, objects, gates: 2, streams: 0, level: Level::Desync, unlock_points, spurious: vec![], pre_open: vec![], root_holds: true, double_wake: false, gate_keep_all: false, stream_always_register: false, keep_going_after_early_destroy: false, despawn_without_quiescence: false, unwinding_drops: false, consumer_probe_polls: false, chained_streams: false, stream_self_wakes: 0 };
+        let cfg = Cfg { pool, objects, gates: 2, streams: 0, level: Level::Desync, unlock_points, spurious: vec![], pre_open: vec![], root_holds: true, double_wake: false, gate_keep_all: false, stream_always_register: false, keep_going_after_early_destroy: false, despawn_without_quiescence: false, unwinding_drops: false, consumer_probe_polls: false, chained_streams: false, stream_self_wakes: 0, guard_syncs };
         let phase0 = Phase { callers, expect_panicked: if second { vec![0, 1] } else { vec![0] }, ..Default::default() };
         let phase1 = Phase { callers: ph2, capacity_probe: true, root: if stale_rewake { vec![RootAct::Rewake { g: 0 }] } else { vec![] }, ..Default::default() };
         if quiet {
@@ -615,6 +637,7 @@ pub fn labels(id: &str, case: &Case, out: &Outcome) -> Vec<String> {
     flag(s.pipe_dropped_while_job > 0, "pipe-dropped-while-poll-job-active");
     flag(out.status == vsched::rt::Status::StepBound, "step-bound");
     flag(s.self_wakes > 0, "self-wake-during-poll");
+    flag(s.syncs_from_destructors_while_unwinding > 0, "sync-from-a-destructor-while-unwinding");
     flag(s.depth_changes > 0, "back-pressure-depth-changed-later");
     flag(s.inline_polls > 0, "inline-task-polled-from-a-waker");
     flag(s.stream_self_wakes > 0, "stream-woke-itself-during-poll_next");
